@@ -17,6 +17,12 @@ theorem afterRemove_nonce_cases (s0 : St) :
     · left; rfl
   · left; rfl
 
+theorem liveRefs_startResolve (s0 : St) : liveRefs (startResolve s0) = liveRefs s0 := by
+  rw [startResolve_eq]; split
+  · simp
+  · have : ∀ s1 : St, liveRefs (spawned s1) = liveRefs s1 := fun s1 => rfl
+    rw [this]; simp
+
 /-- the generation changes only by a context change, a `released()` section, the release of the last
 reference, or the `AddRef` that makes the first reference -/
 theorem nonce_cases (s s' : St) (e : Ev) (hs : step s e = some s') (hn : s'.nonce ≠ s.nonce) :
@@ -49,10 +55,7 @@ theorem nonce_cases (s s' : St) (e : Ev) (hs : step s e = some s') (hn : s'.nonc
     split at hs
     · rename_i hc
       simp at hs; subst hs
-      rw [startResolve_eq]
-      split
-      · simp; exact hc.1
-      · simp [spawned]; unfold liveRefs at hc ⊢; simpa using hc.1
+      rw [liveRefs_startResolve]; exact hc.1
     · split at hs <;> simp at hs <;> subst hs <;> exact absurd rfl hn
   | cfg kp c t => simp only [step] at hs; split at hs <;> simp at hs; subst hs; exact absurd rfl hn
   | invAddRef a kd => simp only [step] at hs; split at hs <;> simp at hs; subst hs; exact absurd rfl hn
